@@ -235,7 +235,7 @@ def run(R):
               "with >= 2 permutations.")
     R.assumptions = ["random draws are observed by seeding and wrapping numpy.random.shuffle / choice"]
     rsd_items = []
-    cnt = 1500 if R.thorough else 300
+    cnt = 8000 if R.thorough else 300
     for t in range(cnt):
         n = R.rng.randint(1, 7)
         m = R.rng.randint(1, 7)
@@ -261,7 +261,7 @@ def run(R):
     for i, (it, r) in enumerate(zip(rsd_items, flat)):
         judge_rsd(R, it, r, ans.get(i, "err no-order"))
     eat_items = []
-    cnt2 = 500 if R.thorough else 110
+    cnt2 = 3000 if R.thorough else 110
     for t in range(cnt2):
         n = R.rng.randint(1, 5 if not R.thorough else 6)
         if R.rng.random() < 0.2 and n >= 2:
